@@ -2,6 +2,7 @@
 from __future__ import annotations
 
 import ast
+import re
 
 from .pymodel import Program
 from .cymodel import CyProgram, X, pp, walk, names_in
@@ -50,6 +51,35 @@ def g1(run: Run, cy: CyProgram):
             raise AnalysisError(f"{f.where}: no store to `{out}` in {kname}")
         stores = []
         seen = set()
+        # a separate mirror pass `for a in R1: for b in R2: out[b, a] = out[a, b]`
+        # over the same pair loops completes one-sided stores
+        mirror_domains = []
+        for st_, ch_ in _loops(f.body):
+            if st_.k == "assign" and len(st_.a[0]) == 1 and st_.a[0][0].k == "index" \
+                    and st_.a[1].k == "index" and pp(st_.a[0][0].a[0]) == out == \
+                    pp(st_.a[1].a[0]) and len(st_.a[0][0].a[1]) == 2 and \
+                    [pp(i_) for i_ in st_.a[0][0].a[1]] == \
+                    [pp(i_) for i_ in reversed(st_.a[1].a[1])] and len(ch_) >= 2:
+                ren = {pp(ch_[-2].a[0]): "_o", pp(ch_[-1].a[0]): "_i"}
+                src_idx = tuple(ren.get(pp(i_), pp(i_)) for i_ in st_.a[1].a[1])
+                dom = tuple(re.sub(r"\b(%s)\b" % "|".join(map(re.escape, ren)),
+                                   lambda m_: ren[m_.group(1)],
+                                   pp(l_.a[1]).replace(" ", "")) for l_ in ch_[-2:])
+                mirror_domains.append((src_idx, dom, id(st_)))
+
+        def mirrored_later(st_, idx0_):
+            ch_ = chains.get(id(st_), ())
+            if len(ch_) < 2:
+                return False
+            ren = {pp(ch_[-2].a[0]): "_o", pp(ch_[-1].a[0]): "_i"}
+            idx_c = tuple(ren.get(x_, x_) for x_ in idx0_)
+            dom = tuple(re.sub(r"\b(%s)\b" % "|".join(map(re.escape, ren)),
+                               lambda m_: ren[m_.group(1)],
+                               pp(l_.a[1]).replace(" ", "")) for l_ in ch_[-2:])
+            return any(s_idx == idx_c and d_ == dom and sid != id(st_)
+                       for s_idx, d_, sid in mirror_domains)
+        rep = [r_ for r_ in rep if id(r_[3]) not in {m_[2] for m_ in mirror_domains}]
+        rep = [(a_, i_, v_, s_, m_ or mirrored_later(s_, i_)) for a_, i_, v_, s_, m_ in rep]
         for (arr, idx0, v, st, mirrored) in rep:
             run.oblige("G1", f"{kname}:symmetric-store", mirrored, sample={
                 "where": f"{f.module.relpath}:{st.line}", "target": idx0})
